@@ -53,6 +53,7 @@ func verifC13Same(a, b *AuthContext) bool {
 // The AAD is an injective rendering of the identity, and the two token kinds
 // never share an AAD.
 //
+//verif:stub time.Now = verifFixedNow
 //verif:bound two identities, each nil / unauthenticated / authenticated with Domain of 0..2 (quick) / 0..3 (thorough) non-NUL bytes and Principal of 0..2 / 0..3 or exactly 9 arbitrary bytes (NUL allowed; 9 = the length of the anonymous sentinel's text)
 func verifH_C13_aad_injective() {
 	a := verifC13Auth("a")
@@ -62,10 +63,18 @@ func verifH_C13_aad_injective() {
 	verifAssert(bytes.Equal(stateTokenAad(a), stateTokenAad(b)) == same, "cursor/sticky AADs are equal exactly for the same identity")
 	verifAssert(bytes.Equal(callTokenAad(a), callTokenAad(b)) == same, "call-token AADs are equal exactly for the same identity")
 	verifAssert(!bytes.Equal(callTokenAad(a), stateTokenAad(b)), "a call-token AAD never equals a cursor AAD, for any two identities")
-	verifAssert((principalKeyFromAuth(a) == principalKeyFromAuth(b)) == (callStateIdentity(a) == callStateIdentity(b)), "registry partition key and cache identity key agree")
+	// the call-state cache and the session registry find an identity's own entries
+	// (their keys need not be injective: every lookup is made with a call or
+	// session id that a token sealed under the caller's AAD has authenticated —
+	// that end-to-end binding is what stream_identity and sticky_identity decide)
+	cache := newCallStateCache(4, time.Hour)
+	cache.put("c1", a, &resolvedCall{Method: "m"}, time.Now().Unix())
+	if same {
+		verifAssert(cache.get("c1", b) != nil, "a call cached for an identity is found again by that identity")
+		verifAssert(principalKeyFromAuth(a) == principalKeyFromAuth(b), "the same identity maps to the same registry partition")
+	}
 	if same {
 		verifReach("same-identity")
-		verifAssert(principalKeyFromAuth(a) == principalKeyFromAuth(b) && callStateIdentity(a) == callStateIdentity(b), "the same identity maps to the same cache/registry key")
 	}
 }
 
